@@ -6,6 +6,7 @@
 mod adapter;
 mod alphabet;
 mod api;
+mod explore;
 mod flow;
 mod groups;
 mod fw;
